@@ -76,6 +76,7 @@ func main() {
 	batch := flag.String("batch", "", "cases file")
 	start := flag.Int("start", 0, "first case index")
 	caseTimeout := flag.Duration("case-timeout", 20*time.Second, "per case timeout")
+	count := flag.Int("count", 0, "number of cases to run (0 = all remaining)")
 	flag.Parse()
 	data, err := os.ReadFile(*batch)
 	if err != nil {
@@ -88,7 +89,11 @@ func main() {
 		os.Exit(3)
 	}
 	enc := json.NewEncoder(os.Stdout)
-	for i := *start; i < len(cases); i++ {
+	end := len(cases)
+	if *count > 0 && *start+*count < end {
+		end = *start + *count
+	}
+	for i := *start; i < end; i++ {
 		ch := make(chan Result, 1)
 		go func(c Case) { ch <- runCase(c) }(cases[i])
 		select {
